@@ -5,6 +5,7 @@
  *  -DOP=1 set(const char_buffer&, mode) 2 set(char_buffer&&, mode) 3 operator=(const char_buffer&) 4 operator=(char_buffer&&) 5 set(ptr,n,mode) 6 operator=(const char*)
  *      7 operator=(utf16_buffer) 8 operator=(utf32_buffer) 9 operator+=(char32_t) 10 operator+=(const char*) 11 string + char32_t
  *     12 string_stream << const char16_t*   13 string_stream << const char32_t*
+ *     14 string(char_buffer&&, mode) [constructor: no previous target; the rvalue argument must survive]   15 string(const char_buffer&, mode)
  *  -DNA=<argument units (concrete)>  -DTMAX=<max target size> */
 #include "vp_harness.h"
 #include "k.h"
@@ -26,7 +27,29 @@ typedef vp_sstream_t ss_t;
 #endif
 
 int vp_harness_main(void) {
-#if OP <= 11
+#if OP == 14 || OP == 15
+  uint32_t mode = vp_in_u32(); ASSUME(mode <= 2);
+#ifdef MODE
+  ASSUME(mode == MODE);     /* the constructor routes are decided per validation mode (all three at once: out of memory at 20 GB) */
+#endif
+  cbuf_t b; uint8_t sb[MX + 1]; S_mk_n(&b, sb, -1, NA);
+  str_t out; out.f0.f0 = 0; out.f0.f1 = 0;
+#if OP == 14
+  vp_ctor_cbuf_move(&out, &b, mode);
+#else
+  vp_ctor_cbuf(&out, &b, mode);
+#endif
+  if (vp_exc_pending) {
+    ASSERT(vp_exc_kind == VP_EXC_UNICODE, "only ST::unicode_error"); vp_clear_exception();
+    ASSERT(S_inv(&b) && S_eq(&b, sb, NA), "the argument buffer (lvalue or rvalue) still holds its value after the failed construction");
+    REACH("failing path");
+  } else {
+    ASSERT(S_inv(&b), "argument buffer is a valid object afterwards");
+    ASSERT(S_inv(&out.f0), "the constructed string is valid");
+    vp_str_dtor(&out);
+  }
+  vp_cbuf_dtor(&b);
+#elif OP <= 11
   str_t t; uint8_t st[MX + 1]; S_mk(&t.f0, st); uint64_t tn = t.f0.f1; ASSUME(tn <= TMAX);
   const uint8_t *tdata = t.f0.f0;
   uint32_t mode = vp_in_u32(); ASSUME(mode <= 2);
